@@ -468,8 +468,11 @@ class Spec:
         for e in entities:
             if e not in merged:
                 raise Mismatch('get', f'entities lists {e}, but get() lists no component for it under any type')
-        unknown = [] if failed_op == 'process' else [x for x in self.dead if x not in merged and
-                                                     x not in self.attached]
+        # (identifiers that own nothing and await deletion are shown by no query: they stay as known - after
+        # a process() that was left by an exception these are the ones its callbacks asked for, the sweep
+        # itself starts from an emptied set)
+        unknown = [] if failed_op == 'process' and self.reentered else [
+            x for x in self.dead if x not in merged and x not in self.attached]
         self.attached = merged
         self.dead = [e for e in merged if e not in entities] + unknown
         seen = {}
